@@ -989,12 +989,15 @@ func main() {
 	if *depthFlag > 0 {
 		depth1 = *depthFlag
 	}
+	// the same store opened with the key directory written with a trailing separator: cache keys
+	// and file paths are then derived from a non-canonical spelling
+	spelledCfg := kslab.Config{Format: "v1", Storage: "mem", Cache: keystore.InfiniteCacheSize, DirSpelling: "slash"}
 	diffCfgs := []kslab.Config{kslab.StandardConfigs[0], kslab.StandardConfigs[3], kslab.StandardConfigs[4], kslab.StandardConfigs[5]}
 	diffCompared, diffAgree, diffExplained := 0, 0, 0
 	for _, k := range kslab.AllKinds {
 		slots := []kslab.Slot{kslab.SlotOf(k, kslab.Alpha)}
 		var hists [][]kslab.Op
-		for _, cfg := range kslab.StandardConfigs {
+		for _, cfg := range append(append([]kslab.Config{}, kslab.StandardConfigs...), spelledCfg) {
 			if !use(cfg) || r.Expired() {
 				continue
 			}
